@@ -128,6 +128,14 @@ fn hashed_subpackets(key: &impl KeyDetails, spec: &Spec) -> pgp::errors::Result<
         },
         Subpacket::regular(SubpacketData::IssuerFingerprint(key.fingerprint()))?,
     ];
+    if spec.notation_len == 150 {
+        // text-carrying subpackets with characters of 2, 3 and 4 UTF-8 octets: their length fields
+        // (and with them the hashed area that is signed) count octets
+        v.push(Subpacket::regular(SubpacketData::PolicyURI("https://example.org/p\u{f6}licy/\u{1f4dc}".into()))?);
+        v.push(Subpacket::regular(SubpacketData::PreferredKeyServer("hkps://schl\u{fc}ssel.example.org/\u{9375}".into()))?);
+        v.push(Subpacket::regular(SubpacketData::RegularExpression("<[^>]+[@.]b\u{fc}cher\\.example>$".into()))?);
+        v.push(Subpacket::regular(SubpacketData::SignersUserID("Zo\u{eb} <zo\u{eb}@example.org>".into()))?);
+    }
     if spec.notation_len > 0 {
         v.push(Subpacket::regular(SubpacketData::Notation(pgp::packet::Notation {
             readable: true,
